@@ -81,7 +81,7 @@ func runWs(c *Case) []string {
 		if e != "" {
 			e += " "
 		}
-		return fmt.Sprintf("%sstate=%d pend=%d wire=%s", e, int(s.State()), s.Pending(), bytesRepr(ms.TakeWire()))
+		return fmt.Sprintf("%sstate=%d pend=%d wire=%s", e, int(s.State()), s.Pending(), hexs(ms.TakeWire()))
 	}
 	payloadArg := func(a []string, i int) []byte {
 		// either hex or pat:<n>:<start>
